@@ -144,6 +144,8 @@ type c42Env struct {
 	eStore   ethcommon.Address
 	eKill    ethcommon.Address
 	putKeys  [][]byte
+	noAtomic bool                             // never generate the atomic batch interface (it takes the block-saving lock)
+	hookA    func(name string, height uint32) // installed as ledgerstore.VerifCrashHook only while A submits a block
 }
 
 // both applies a block built on A to A and to the twin B and demands identical results.
@@ -166,7 +168,9 @@ func (e *c42Env) both(txs []*types.Transaction, what string) (store.ExecuteResul
 		return resA, fmt.Errorf("%s: block %d gives change hash %s / state root %s on the ledger that pre-executed but %s / %s on its twin; notifications A=%s B=%s",
 			what, blk.Header.Height, resA.Hash.ToHexString(), resA.MerkleRoot.ToHexString(), resB.Hash.ToHexString(), resB.MerkleRoot.ToHexString(), ja, jb)
 	}
+	ledgerstore.VerifCrashHook = e.hookA
 	errA = e.A.LS.SubmitBlock(blk, nil, resA)
+	ledgerstore.VerifCrashHook = nil
 	errB = e.B.LS.SubmitBlock(blk, nil, resB)
 	if errA != nil || errB != nil {
 		return resA, fmt.Errorf("%s: block %d submit err A=%v B=%v", what, blk.Header.Height, errA, errB)
@@ -344,8 +348,9 @@ func (e *c42Env) close() {
 }
 
 // live is the set of cheap reads compared after every single pre-execution.
-func (e *c42Env) live() string {
-	ls := e.A.LS
+func (e *c42Env) live() string { return e.liveOf(e.A.LS) }
+
+func (e *c42Env) liveOf(ls *ledgerstore.LedgerStoreImp) string {
 	var sb strings.Builder
 	h := ls.GetCurrentBlockHeight()
 	hh := ls.GetCurrentBlockHash()
@@ -567,6 +572,9 @@ func (e *c42Env) genNeoTx(t *rapid.T) (*types.Transaction, string, string) {
 
 func (e *c42Env) genNeoReq(t *rapid.T) c42Req {
 	iface := rapid.SampledFrom([]string{"PreExecuteContract", "PreExecuteContract", "Batch", "Batch-atomic", "WithParam"}).Draw(t, "niface")
+	if e.noAtomic && iface == "Batch-atomic" {
+		iface = "Batch"
+	}
 	ls := func() *ledgerstore.LedgerStoreImp { return e.A.LS }
 	minGas := uint64(neovm.MIN_TRANSACTION_GAS)
 	switch iface {
@@ -747,6 +755,50 @@ func (e *c42Env) genEvmReq(t *rapid.T) c42Req {
 
 // ---------------------------------------------------------------------------------------------
 
+// genRealTxs draws the transactions of a real block: ONG transfer, NeoVM put, EVM storing call, EVM value transfer.
+func (e *c42Env) genRealTxs(t *rapid.T) []*types.Transaction {
+	var txs []*types.Transaction
+	n := rapid.IntRange(0, 4).Draw(t, "realtx")
+	for j := 0; j < n; j++ {
+		switch rapid.IntRange(0, 3).Draw(t, "realkind") {
+		case 0:
+			tx, err := e.A.Transfer(nutils.OngContractAddress, e.bk, e.u1.Address, rapid.Uint64Range(1, 999).Draw(t, "ramt"), 2500, 20000)
+			if err != nil {
+				t.Fatal(err)
+			}
+			txs = append(txs, tx)
+		case 1:
+			v := rapid.SliceOfN(rapid.Byte(), 1, 8).Draw(t, "rv")
+			k := rapid.SampledFrom([][]byte{[]byte("k0"), []byte("new")}).Draw(t, "rk")
+			tx, err := e.neoInvoke(new(neoAsm).push(v).push(k).appcall(e.put).b, e.bk, 0)
+			if err != nil {
+				t.Fatal(err)
+			}
+			txs = append(txs, tx)
+		case 2:
+			from := rapid.IntRange(0, 1).Draw(t, "rfrom")
+			to := e.eStore
+			tx, _, err := e.evmTx(from, &to, 0, 100000, 500, word(rapid.Byte().Draw(t, "rw")))
+			if err != nil {
+				t.Fatal(err)
+			}
+			e.nonce[from]++
+			txs = append(txs, tx)
+		default:
+			from := rapid.IntRange(0, 1).Draw(t, "rfrom2")
+			to := ethAddr(e.eth[2])
+			tx, _, err := e.evmTx(from, &to, rapid.Uint64Range(1, 50).Draw(t, "rval"), 30000, 500, nil)
+			if err != nil {
+				t.Fatal(err)
+			}
+			e.nonce[from]++
+			txs = append(txs, tx)
+		}
+	}
+
+	return txs
+}
+
 func c42Run(t *testing.T, family string, quick, thorough int) {
 	ev := harn.For("C42")
 	ev.Rule("twin solo ledgers (same genesis, same 3+0..3 prefix blocks: funding; NeoVM contracts put/del/destroy/put+migrate and EVM contracts sstore+log / selfdestruct; state-giving calls; generated transfers), one clean reopen on both; ledger A then serves 2-5 rounds of 6-16 generated pre-executions, each round followed by 1-2 real blocks applied to both ledgers: NeoVM/native family = ONT/ONG transfer, approve, contract put/delete/destroy/put+migrate via APPCALL, Contract.Create from invoke code, deploy tx, faulting code, signed by the owner / another account / nobody, through PreExecuteContract, PreExecuteContractWithParam, PreExecuteContractBatch (atomic and not, 1-3 txs); EVM family = creation (0-3 logs, 0-3 SSTOREs, return/return-code/revert, with value), call of the storing+logging contract, call of the self-destructing contract, value transfer, unfunded sender / too little gas, right and wrong nonces, through PreExecuteContract(EIP-155 tx), PreExecuteEIP155, PreExecuteEip155Tx and TraceEip155Tx (zero and non-zero gas price). After each: live reads unchanged, no event/tx record for the pre-executed hash, same request repeated gives the same result and a fixed set of probe pre-executions (nonce-checked EVM transfers, storing call, native balanceOf) is unchanged. After the batch: logical dump of every LevelDB of the closed data dir + merkle file bytes equal to the dump before. Then 1-3 real blocks on both ledgers must give identical execution results/roots and finally identical dumps. Non-trivial = pre-execution that succeeds with a notification or gas above the base (20000 NeoVM / 21000 EVM); distinct by request description")
@@ -856,44 +908,7 @@ func c42Run(t *testing.T, family string, quick, thorough int) {
 			// real blocks on both ledgers
 			nb := rapid.IntRange(1, 2).Draw(t, "realblocks")
 			for b := 0; b < nb; b++ {
-				var txs []*types.Transaction
-				n := rapid.IntRange(0, 4).Draw(t, "realtx")
-				for j := 0; j < n; j++ {
-					switch rapid.IntRange(0, 3).Draw(t, "realkind") {
-					case 0:
-						tx, err := e.A.Transfer(nutils.OngContractAddress, e.bk, e.u1.Address, rapid.Uint64Range(1, 999).Draw(t, "ramt"), 2500, 20000)
-						if err != nil {
-							t.Fatal(err)
-						}
-						txs = append(txs, tx)
-					case 1:
-						v := rapid.SliceOfN(rapid.Byte(), 1, 8).Draw(t, "rv")
-						k := rapid.SampledFrom([][]byte{[]byte("k0"), []byte("new")}).Draw(t, "rk")
-						tx, err := e.neoInvoke(new(neoAsm).push(v).push(k).appcall(e.put).b, e.bk, 0)
-						if err != nil {
-							t.Fatal(err)
-						}
-						txs = append(txs, tx)
-					case 2:
-						from := rapid.IntRange(0, 1).Draw(t, "rfrom")
-						to := e.eStore
-						tx, _, err := e.evmTx(from, &to, 0, 100000, 500, word(rapid.Byte().Draw(t, "rw")))
-						if err != nil {
-							t.Fatal(err)
-						}
-						e.nonce[from]++
-						txs = append(txs, tx)
-					default:
-						from := rapid.IntRange(0, 1).Draw(t, "rfrom2")
-						to := ethAddr(e.eth[2])
-						tx, _, err := e.evmTx(from, &to, rapid.Uint64Range(1, 50).Draw(t, "rval"), 30000, 500, nil)
-						if err != nil {
-							t.Fatal(err)
-						}
-						e.nonce[from]++
-						txs = append(txs, tx)
-					}
-				}
+				txs := e.genRealTxs(t)
 				if _, err := e.both(txs, "real block after the pre-executions ["+strings.Join(descs, " | ")+"]"); err != nil {
 					t.Fatalf("%v", err)
 				}
@@ -920,3 +935,131 @@ func c42Run(t *testing.T, family string, quick, thorough int) {
 
 func TestC42_NeoNative(t *testing.T) { c42Run(t, "neo", 4, 300) }
 func TestC42_Evm(t *testing.T)       { c42Run(t, "evm", 4, 300) }
+
+// c42CacheRead is the "GetCacheDB + reads" request: what the transaction pool and eth_call do.
+func (e *c42Env) c42CacheRead(t *rapid.T) c42Req {
+	who := rapid.IntRange(0, 2).Draw(t, "cacheread")
+	addr := e.eth[who].Address
+	return c42Req{desc: fmt.Sprintf("GetCacheDB:read ONG balance and EVM account of e%d", who), kind: "cache:read", run: func() (string, bool, bool, *common.Uint256) {
+		c := e.A.LS.GetCacheDB()
+		v, err := c.Get(append(append([]byte{}, nutils.OngContractAddress[:]...), addr[:]...))
+		acc, err2 := c.GetEthAccount(ethAddr(e.eth[who]))
+		return fmt.Sprintf("%x err=%v nonce=%d err=%v", v, err != nil, acc.Nonce, err2 != nil), err == nil && err2 == nil, false, nil
+	}}
+}
+
+var c42Points = []string{"pre-block-commit", "post-block-commit", "post-event-commit", "post-state-commit"}
+
+// TestC42_PreExecInsideCommitWindow lets pre-execution requests land BETWEEN the store commits of a
+// block: the verif hook of submitBlock runs them synchronously at a drawn point of ledger A's commit
+// (harness-owned schedule, no real concurrency). The twin B commits the same block undisturbed.
+func TestC42_PreExecInsideCommitWindow(t *testing.T) {
+	ev := harn.For("C42")
+	ev.Rule("commit window: twin ledgers as above; 3-7 real blocks (0-4 txs: ONG transfer, NeoVM put, EVM storing call, EVM transfer); while ledger A commits each block, at a DRAWN point of submitBlock (pre-block-commit = all three batches staged, post-block-commit, post-event-commit, post-state-commit = before the height advances) 1-3 generated requests run inside the commit through the interfaces that do not take the block-saving lock: PreExecuteContract, PreExecuteContractWithParam, non-atomic PreExecuteContractBatch, PreExecuteEIP155, PreExecuteEip155Tx, TraceEip155Tx, GetCacheDB + reads (the ATOMIC PreExecuteContractBatch takes the saving lock, cannot run there and is never generated in this test); B commits the same block with no request. Nothing is asserted about the RESULT of a request inside the window (it may see the old or the partially committed state); after each block: state root, tip and the live reads of A and B equal; afterwards 1-2 undisturbed blocks must be accepted identically and the closed data directories must have identical logical content. One case per request; non-trivial = request that succeeded with a notification or gas above the base while a block with >= 1 tx was between its commits; distinct by point and request")
+	harn.Check(t, 20, 600, func(t *rapid.T) {
+		extra := rapid.IntRange(0, 2).Draw(t, "extra")
+		amts := make([]uint64, extra)
+		for i := range amts {
+			amts[i] = rapid.Uint64Range(0, 5000).Draw(t, "extraamt")
+		}
+		e, err := c42Setup(extra, amts)
+		if err != nil {
+			t.Fatalf("setup: %v", err)
+		}
+		defer func() { ledgerstore.VerifCrashHook = nil; e.close() }()
+		e.noAtomic = true
+		nBlocks := rapid.IntRange(3, 7).Draw(t, "blocks")
+		var history []string
+		for b := 0; b < nBlocks; b++ {
+			txs := e.genRealTxs(t)
+			point := rapid.SampledFrom(c42Points).Draw(t, "point")
+			nreq := rapid.IntRange(1, 3).Draw(t, "nreq")
+			var reqs []c42Req
+			for i := 0; i < nreq; i++ {
+				switch rapid.IntRange(0, 4).Draw(t, "family") {
+				case 0, 1:
+					reqs = append(reqs, e.genNeoReq(t))
+				case 2, 3:
+					reqs = append(reqs, e.genEvmReq(t))
+				default:
+					reqs = append(reqs, e.c42CacheRead(t))
+				}
+			}
+			fired := 0
+			type outcome struct {
+				ok, nt bool
+				pan    interface{}
+			}
+			var outs []outcome
+			next := e.A.LS.GetCurrentBlockHeight() + 1
+			e.hookA = func(name string, height uint32) {
+				if name != point || height != next {
+					return
+				}
+				fired++
+				for _, rq := range reqs {
+					_, ok, nt, _, pan := safely(rq.desc, rq.run)
+					outs = append(outs, outcome{ok, nt, pan})
+				}
+			}
+			var ds []string
+			for _, rq := range reqs {
+				ds = append(ds, rq.desc)
+			}
+			what := fmt.Sprintf("block %d (%d txs) with requests [%s] run at %s of its commit", next, len(txs), strings.Join(ds, " | "), point)
+			history = append(history, what)
+			_, err := e.both(txs, what)
+			e.hookA = nil
+			if err != nil {
+				t.Fatalf("%v\nhistory: %s", err, strings.Join(history, " ;; "))
+			}
+			if fired != 1 {
+				t.Fatalf("harness: hook point %s of block %d fired %d times", point, next, fired)
+			}
+			if la, lb := e.liveOf(e.A.LS), e.liveOf(e.B.LS); la != lb {
+				t.Fatalf("after %s the ledger reads differ from the twin that committed the same block undisturbed:\n twin %s\n this %s", what, lb, la)
+			}
+			ev.Class("window:" + point)
+			ev.Class("window")
+			for i, o := range outs {
+				iface := reqs[i].desc[:strings.Index(reqs[i].desc, ":")]
+				switch {
+				case o.pan != nil:
+					ev.Class("window-req:" + iface + ":panic")
+				case o.ok:
+					ev.Class("window-req:" + iface + ":ok")
+				default:
+					ev.Class("window-req:" + iface + ":rejected")
+				}
+				ev.Class("window-req")
+				if o.nt {
+					ev.Class("window-req:nontrivial")
+				}
+				ev.Case(o.nt && len(txs) > 0, point+" "+reqs[i].desc)
+			}
+		}
+		for i := rapid.IntRange(1, 2).Draw(t, "after"); i > 0; i-- {
+			if _, err := e.both(e.genRealTxs(t), "undisturbed block after: "+strings.Join(history, " ;; ")); err != nil {
+				t.Fatalf("%v", err)
+			}
+		}
+		e.A.Close()
+		e.B.Close()
+		da, err := dumpLedgerDir(e.A.Dir, true)
+		if err != nil {
+			t.Fatalf("harness: final dump A: %v", err)
+		}
+		db, err := dumpLedgerDir(e.B.Dir, true)
+		if err != nil {
+			t.Fatalf("harness: final dump B: %v", err)
+		}
+		if d := diffDumps(db, da); d != "" {
+			t.Fatalf("persisted content differs from the twin (before=twin, after=ledger that served requests inside its commits) after: %s\n%s", strings.Join(history, " ;; "), d)
+		}
+		ev.Class("window-session")
+	})
+	for _, p := range c42Points {
+		ev.Floor("window:"+p, "window", 0.12)
+	}
+	ev.Floor("window-req:nontrivial", "window-req", 0.15)
+}
